@@ -191,6 +191,14 @@ func (r *Run) Violate(sig, what string, detail interface{}) bool {
 	return true
 }
 
+// Pending returns the violations recorded so far (used when one harness computes
+// a layer on behalf of another).
+func (r *Run) Pending() []Violation {
+	r.mu.Lock()
+	defer r.mu.Unlock()
+	return append([]Violation{}, r.violations...)
+}
+
 // Violations so far (not counting known findings).
 func (r *Run) Violations() int {
 	r.mu.Lock()
